@@ -613,10 +613,12 @@ fn hammer(ctx: &mut Ctx, case: u64, rng: &mut Rng, nthreads: usize, comp: Comp) 
 /// other threads' streams and between two reads of a decoder's input.  No hook, no sleep.  Oracle only.
 fn crowd(ctx: &mut Ctx, case: u64, rng: &mut Rng, nthreads: usize, comp: Comp) {
     use crate::container::{self, Item, Mode, Spec};
-    let npacks: u16 = if ctx.quick() { 8 } else { 14 };
+    let npacks: u16 = if ctx.quick() { 28 } else { 47 };
     let mut items = vec![];
     for p in 1..=npacks + 1 {
-        let big = 60_000 + rng.below(120_000) as usize;
+        // every fifth pack has a compressed cluster spanning many reads of its payload, the others are small
+        // (many first accesses — small checked blocks read from the shared file — per opening)
+        let big = if p % 5 == 0 { 60_000 + rng.below(120_000) as usize } else { 5_000 + rng.below(9_000) as usize };
         for (j, (len, hint, random)) in [(1500 + rng.below(3000) as usize, Hint::No, true), (big, Hint::Yes, true), (300 + rng.below(5000) as usize, Hint::No, false), (2000, Hint::Yes, false)].into_iter().enumerate() {
             let data = if random { rng.bytes(len) } else { rng.low_entropy(len) };
             items.push(Item { name: format!("p{}i{}", p, j).into_bytes(), num: p as u64 * 10 + j as u64, data, hint, pack: p });
@@ -634,7 +636,7 @@ fn crowd(ctx: &mut Ctx, case: u64, rng: &mut Rng, nthreads: usize, comp: Comp) {
     };
     jbk::verif_hooks::set_hook(None);
     let datas: Arc<Vec<(u16, Vec<u8>)>> = Arc::new(spec.items.iter().map(|i| (spec.pack_id(i.pack), i.data.clone())).collect());
-    let rounds = if ctx.quick() { 6 } else { 25 };
+    let rounds = if ctx.quick() { 30 } else { 150 };
     let mut total = 0u64;
     for round in 0..rounds {
         let c = match util::guarded(|| jbk::reader::Container::new(&path)) {
@@ -664,14 +666,17 @@ fn crowd(ctx: &mut Ctx, case: u64, rng: &mut Rng, nthreads: usize, comp: Comp) {
         };
         let addrs = Arc::new(addrs);
         let (tx, rx) = std::sync::mpsc::channel::<(usize, Option<String>, u64)>();
+        let barrier = Arc::new(std::sync::Barrier::new(nthreads));
         for t in 0..nthreads {
             let c = Arc::clone(&c);
             let datas = Arc::clone(&datas);
             let addrs = Arc::clone(&addrs);
             let tx = tx.clone();
+            let barrier = Arc::clone(&barrier);
             let seed = rng.next() | 1;
             std::thread::spawn(move || {
                 TRNG.with(|c| c.set(seed));
+                barrier.wait();
                 let n = datas.len();
                 let start = trand() as usize % n;
                 let stride = [1usize, n - 1, 3, 5, 7][trand() as usize % 5];
